@@ -60,9 +60,38 @@ def run(prop, tier, seed, t0):
     if prop == 'C20':
         configs = ['std', 'nostd', 'nostd_chain']
     vres_all = {}
+    extra_modules = {}
+    if prop == 'C20':
+        # obligation 1 (syntactic): every function under contract has byte-identical extracted text in every
+        # configuration; a function whose text differs (or that exists only in some configurations) is verified
+        # in every configuration where it exists (obligation 2) -- its module is added to the selection.
+        metas = {}
+        for cfgname in configs:
+            _rs, metas[cfgname] = check.generate(cfgname, prop, tier)
+        ids = {}
+        for cfgname, m in metas.items():
+            for f in m['fns']:
+                ids.setdefault(f['id'], {})[cfgname] = (f['sha'], f['module'])
+        same = 0
+        differing = []
+        for fid, per in sorted(ids.items()):
+            shas = set(x[0] for x in per.values())
+            if len(per) == len(configs) and len(shas) == 1:
+                same += 1
+            else:
+                differing.append({'id': fid, 'configs': {c: per[c][0] for c in per}})
+                for c in per:
+                    extra_modules.setdefault(c, set()).add(per[c][1])
+        cov['obligations'] += same
+        cov['discharged'] += same
+        cov['config_identity'] = {'functions_identical_in_all_configs': same, 'functions_differing': differing,
+                                  'configs': {c: metas[c]['repo_hash'] for c in metas}}
+        if tier == 'thorough':
+            for c in configs:
+                extra_modules[c] = set(metas[c]['modules'].keys())
     for cfgname in configs:
         try:
-            v = check.verus_property_run(prop, cfgname, prop, tier)
+            v = check.verus_property_run(prop, cfgname, prop, tier, extra_modules=sorted(extra_modules.get(cfgname, [])))
         except Undecided as e:
             if 'no Verus module is tagged' in str(e):
                 v = None
